@@ -109,8 +109,24 @@ def _sz_worker(job_file, out_file):
             entries.append({"name": nm, "kind": k, "data": data if k == "file" else b""})
         folders = [[i - 1 for i in g] for g in a["fold"]]
         coders = [("copy" if cc == "copy" else rng.choice(["lzma", "lzma2"])) for cc in a["coder"]]
+        dict_size = z.lzma2_dict(rng.randrange(13))          # LZMA2 property bytes 0..12, odd (3 * 2^n) ones too
+        ld = c.get("longdist")
+        if ld:
+            # one solid LZMA / LZMA2 folder whose LAST file repeats the head of the FIRST at a distance of 0.85 x
+            # dictionary size: for odd LZMA2 property bytes that lies between 2 * 2^n and 3 * 2^n
+            dict_size = ld["dict"]
+            coders = [ld["coder"]] * len(folders)
+            files = [e for e in entries if e["kind"] == "file"]
+            head = rng.randbytes(700)
+            rest = max(int(dict_size * 0.85) - 700, 64)
+            mids = len(files) - 2
+            files[0]["data"] = head + rng.randbytes(rest - mids * 200)
+            for e in files[1:-1]:
+                e["data"] = rng.randbytes(200)
+            files[-1]["data"] = head + rng.randbytes(40)
         gap = 0 if a["packPos"] == 0 else rng.randint(1, 60)
         data, info = z.write_7z(entries, folders, coders=coders, encode_header=rng.random() < 0.4, gap=gap,
+                                dict_size=dict_size,
                                 always_nums=rng.random() < 0.3, attrs=rng.random() < 0.7, mtime=rng.random() < 0.3)
         z.self_check(data, entries)
         unpacked = [b"".join(entries[i]["data"] for i in f) for f in folders]
@@ -208,6 +224,17 @@ def _sz_part(ctx):
     for n in range(extra):
         cases.append({"id": f"R{n}", "n": 100000 + n, "arch": _random_arch(rng, rng.randint(3, 9)),
                       "seed": rng.randrange(1 << 30)})
+    # long-distance matches: every small LZMA2 property byte (even: 2^n, odd: 3 * 2^n dictionaries) and some LZMA sizes
+    n_ld = 0
+    for coder, dicts in (("lzma2", [(2 | (p & 1)) << (p // 2 + 11) for p in range(13)]),
+                         ("lzma", [4096, 6144, 12288, 40000, 98304])):
+        for d in dicts:
+            for kinds, fold in ((["file", "file"], [[1, 2]]), (["file", "empty", "file", "file"], [[1, 3, 4]])):
+                cases.append({"id": f"D{n_ld}", "n": 200000 + n_ld, "seed": rng.randrange(1 << 30),
+                              "longdist": {"coder": coder, "dict": d},
+                              "arch": {"kinds": kinds, "usize": [1 if k == "file" else 0 for k in kinds], "fold": fold,
+                                       "coder": ["lz"], "psize": [1], "packPos": rng.choice([0, 2])}})
+                n_ld += 1
     nw = 8
     procs = []
     for w in range(nw):
@@ -245,7 +272,7 @@ def _sz_part(ctx):
     ev.replayed(len(traces))
     k = next((i for i, t in enumerate(traces) if len(t["hdr"]["fold"]) > 1), 0)
     ev.sample({"7z layout": traces[k]["hdr"], "observation": traces[k]["ev"][:6]})
-    return len(arches), extra
+    return len(arches), extra + n_ld
 
 
 # --------------------------------------------------------------------------- member level
@@ -302,11 +329,13 @@ def _member_part(ctx):
     cases = [c for c in cases if c["hist"]["t"] == "Exhaust"
              and sum(1 for m in c["members"] if m["kind"] == "corrupt") <= 1]
     rng = random.Random(ctx.seed * 31337 + 3)
-    ncs = ["plain", "plain", "nested", "unicode"]
+    ncs = ["plain", "plain", "nested", "unicode", "dotslash", "dotslash"]
     for n, c in enumerate(cases, start=1):
         for m in c["members"]:
             if m["kind"] in ("doc", "emptyFile", "corrupt", "dir", "nested", "unsup"):
-                m["nc"] = rng.choice(ncs)          # benign name classes only: the oracle is the same for all three
+                m["nc"] = rng.choice(ncs)          # benign name classes only: the oracle is the same for all of them
+            elif m["kind"] == "hidden":
+                m["nc"] = rng.choice(["plain", "nested"])   # dot-file at the root / below a folder
         c.update(id=f"m{n}", n=n, seed=rng.randrange(1 << 30), rich=True, tok0=1)
         c["variants"] = _variants(c, rng, thorough)
     n_arch = sum(len(c["variants"]) for c in cases)
